@@ -332,6 +332,10 @@ def check_c(ck, repo):
     if len(own) == 1:
         conds = conds_at(repo, el, own[0])
         okl = len(conds) == 1 and any(c in conds for c in (cond_text("self.above is None or self.below is None"), cond_text("self.below is None or self.above is None"), cond_text("self.above is not None and self.below is not None", False), cond_text("self.below is not None and self.above is not None", False)))
+    recursive_el = any(isinstance(n, ast.Call) and isinstance(n.func, ast.Attribute) and n.func.attr == "enumerate_leaves_index" for n in own_nodes_incl_lambda(el.node))
+    if not own and not recursive_el:
+        ck.unknown("C10.c", el, "yield self.index", "enumerate_leaves_index neither yields self.index nor recurses into the children: the terminal nodes are listed by another walk (e.g. a generator over all nodes), which this rule does not read")
+        return
     ck.verdict(okl, "C10.c", el, own[0] if own else "yield self.index", "a node where some rows stop (a side without child) is listed as terminal", f"terminal-node test changed (conditions {sorted(conds)}): get_leaves_index no longer lists exactly the nodes where a path can end")
     for side in ("above", "below"):
         sub = [n for n in own_nodes_incl_lambda(el.node) if isinstance(n, ast.Call) and src_of(n.func) == f"self.{side}.enumerate_leaves_index"]
@@ -341,6 +345,24 @@ def check_c(ck, repo):
             p = getattr(sub[0], "_parent", None)
             oks = isinstance(p, ast.YieldFrom) or (isinstance(p, ast.For) and p.iter is sub[0] and len(p.body) == 1 and isinstance(p.body[0], ast.Expr) and isinstance(p.body[0].value, ast.Yield) and src_of(p.body[0].value.value) == src_of(p.target))
         ck.verdict(oks, "C10.c", el, sub[0] if sub else f"self.{side}.enumerate_leaves_index()", f"terminal nodes of the {side} subtree are all listed", f"the terminal nodes of the {side} subtree are not all enumerated")
+
+
+def check_same_input(ck, repo):
+    """the three read-side traversals walk the same values: none of the public entry points
+    re-types X (float32 rounding moves rows that sit on a threshold to the other side)"""
+    top = repo.cls(MOD, "DecisionTreeLogisticRegression")
+    for mname in ("predict", "predict_proba", "decision_function", "decision_path", "get_leaves_index"):
+        m = top.methods.get(mname)
+        if m is None or len(m.named_params) < 2:
+            continue
+        X = m.named_params[1]
+        lossy = []
+        for st in own_nodes(m.node):
+            if isinstance(st, ast.Assign) and any(isinstance(t, ast.Name) and t.id == X for t in st.targets):
+                v = src_of(st.value)
+                if "float32" in v or "_validate_X_predict" in v or "float16" in v or "DTYPE" in v:
+                    lossy.append(st)
+        ck.verdict(not lossy, "C10.a", m, lossy[0] if lossy else f"{mname}: {X} is handed to the nodes as given", "the traversal compares the caller's values with the thresholds, like the other traversals", f"{mname} converts {X} to a narrower float type before walking the tree: a probability computed from the rounded features can fall on the other side of the threshold than the one predict_proba / fit computed from the caller's float64 values, so the path marked does not end on the node that produced the probabilities")
 
 
 def _root_fit_function(repo, top) -> FunctionInfo:
@@ -390,6 +412,7 @@ def run(ck):
     check_b(ck, repo)
     check_c(ck, repo)
     check_d(ck, repo)
+    check_same_input(ck, repo)
     from .sem import share_clauses
 
     share_clauses(ck, "c04", {
